@@ -12,7 +12,7 @@ import time
 
 from . import mon
 from .core import Ctx, tb_str
-from .gen import rng_for
+from .gen import rng_for, clamp_ranges
 from .lit import from_literal
 
 
@@ -32,6 +32,7 @@ CASE_TIMEOUT = float(os.environ.get("VERIF_CASE_TIMEOUT", "60"))
 
 
 def exec_case(prop, case, ctx):
+    clamp_ranges(case)
     ctx.case = case
     ctx.evaluations += 1
     signal.setitimer(signal.ITIMER_REAL, getattr(prop, "CASE_TIMEOUT", CASE_TIMEOUT))
